@@ -223,6 +223,40 @@ func c19Program(c *core.Ctx, i int64, src []byte) {
 				}
 			}
 		}
+		// an output writer that fails after k bytes: the options must still only observe
+		if route != 2 && i%4 == 0 {
+			k := int(i/4) % 300
+			fr := func(d, t, s bool) (res string) {
+				var lg bytes.Buffer
+				w := &failingWriter{limit: k}
+				opts := []bcl.Option{bcl.OptOutput(w), bcl.OptLogger(&lg), bcl.OptDisasm(d), bcl.OptTrace(t), bcl.OptStats(s)}
+				pan, _ := protect(func() {
+					if route == 0 {
+						p, err := bcl.Parse(src, "c19", opts...)
+						if err != nil {
+							res = "parse:" + err.Error()
+							return
+						}
+						bl, bi, xerr := bcl.Execute(p, opts...)
+						res = fmt.Sprintf("%s|%s|%v", canonBlocks(bl), canonBinding(bi), xerr)
+					} else {
+						bl, bi, err := bcl.Interpret(src, opts...)
+						res = fmt.Sprintf("%s|%s|%v", canonBlocks(bl), canonBinding(bi), err)
+					}
+				})
+				return res + "|" + pan + "|" + lg.String()
+			}
+			want := fr(false, false, false)
+			for combo := 1; combo < 8; combo++ {
+				got := fr(combo&4 != 0, combo&2 != 0, combo&1 != 0)
+				c.Eval(1)
+				if got != want {
+					c.Violation("options-change-outcome-with-failing-writer", fmt.Sprintf("%s with an output writer failing after %d bytes: options %03b give %s, none give %s", routeName, k, combo, core.Trunc(got, 300), core.Trunc(want, 300)), det(fmt.Sprintf("%03b", combo), base))
+					return
+				}
+			}
+			c.Count("runs_with_failing_output_writer", 7)
+		}
 		c.Count("routes_"+strings.ReplaceAll(routeName, "+", "_"), 1)
 		if base.parseErr {
 			c.Count("rejected_programs", 1)
